@@ -464,6 +464,11 @@ func main() {
 	if info.Workers > 0 {
 		nw = info.Workers
 	}
+	if v := os.Getenv("VERIF_WORKERS"); v != "" { // development: leave cores for other work
+		if n, _ := strconv.Atoi(v); n > 0 && n < nw {
+			nw = n
+		}
+	}
 	if int64(nw) > total {
 		nw = int(total)
 	}
